@@ -262,7 +262,7 @@ def gen_op7(schema, ci, rng, ctx):
         return {"k": "set", "path": [], "i": i, "v": enc_val(schema, gen_member_value(schema, f, rng))}
     if k == "set_plain" and plain:
         i, f = rng.choice(plain)
-        v = msggen.gen_field_value(schema, f, rng, 2, in_range=rng.random() < 0.9)
+        v = msggen.gen_field_value(schema, f, rng, 2)      # in range: what out-of-range ints encode to is C16/C17's subject
         return {"k": "set", "path": [], "i": i, "v": enc_val(schema, v)}
     if k in ("set_nested", "get"):
         op = histgen.gen_op(schema, ci, rng, kinds=["set" if k == "set_nested" else "get"])
@@ -673,6 +673,21 @@ def run_history(schema, ci, ops, ctx, count=True, rng=None):
         except Exception as e:
             problems.append((step, "oracle-crash", f"evaluating the property raised {type(e).__name__}: {e}"))
         sels.append(tuple(exp))
+        if count:
+            # the decidable side condition of C07_observable / C07_json_observable (selected member holds a value):
+            # how often do generated states meet it?  (C07_selected_values_reachable proves it for op_ok histories)
+            try:
+                import betterproto as bp
+                ok = True
+                for g in range(c.ngroups):
+                    name = object.__getattribute__(m, "_group_current").get(f"g{g}")
+                    if name is not None:
+                        v = object.__getattribute__(m, name)
+                        if v is None or isinstance(v, (list, dict)):
+                            ok = False
+                ctx.count("side_condition:selected_values_ok:" + ("met" if ok else "NOT met"))
+            except Exception:
+                ctx.count("side_condition:selected_values_ok:unknown")
         if problems:
             break
     return coq_ops, snaps, problems, sels
